@@ -253,3 +253,15 @@ func waitNoSockets(ports map[string]bool, grace time.Duration) []string {
 		time.Sleep(2 * time.Millisecond)
 	}
 }
+
+// socketCount: the FD ledger — how many descriptors of the process are sockets (whether or not a goroutine
+// is attached to them).
+func socketCount(snap map[int]string) int {
+	n := 0
+	for _, t := range snap {
+		if strings.HasPrefix(t, "socket:") {
+			n++
+		}
+	}
+	return n
+}
